@@ -65,7 +65,11 @@ func CoqCase(sc *Scenario, r *Result) string {
 			}
 			es = append(es, fmt.Sprintf("E %s %d", node, e.Payload))
 		}
-		obs = append(obs, fmt.Sprintf("D %d %d %s [%s]", d.Inst, d.Type, lib.Bool(d.Agg), strings.Join(es, "; ")))
+		inst := d.Inst
+		if inst < 0 {
+			inst = 99 // a delivery to an instance the scenario does not know (left over, duplicated)
+		}
+		obs = append(obs, fmt.Sprintf("D %d %d %s [%s]", inst, d.Type, lib.Bool(d.Agg), strings.Join(es, "; ")))
 	}
 	fin := map[string]string{"alive": "FAlive", "crashed": "FCrashed", "hung": "FHung"}[r.Status]
 	// an instance is named by the TreeNodeID of its To token
